@@ -23,8 +23,11 @@
 #include <memory>
 #include <optional>
 #include <string>
+#include <tuple>
+#include <type_traits>
 #include <unordered_map>
 #include <unordered_set>
+#include <utility>
 #include <vector>
 
 #include "oomd/CgroupContext.h"
@@ -113,11 +116,9 @@ class OomdContext {
   std::vector<ConstCgroupContextRef> reverseSort(
       const std::unordered_set<CgroupPath>& cgroups,
       Functor&& get_key) {
-    auto sorted = addToCacheAndGet(cgroups);
-    std::sort(sorted.begin(), sorted.end(), [&](const auto& a, const auto& b) {
-      return get_key(a.get()) > get_key(b.get());
-    });
-    return sorted;
+    return sortDescByKeys(
+        addToCacheAndGet(cgroups),
+        [&](const CgroupContext& cgroup_ctx) { return get_key(cgroup_ctx); });
   }
 
   /*
@@ -128,15 +129,37 @@ class OomdContext {
   static std::vector<ConstCgroupContextRef> sortDescWithKillPrefs(
       const std::vector<ConstCgroupContextRef>& cgroups,
       Functor&& get_key) {
-    auto sorted = cgroups;
-    std::sort(sorted.begin(), sorted.end(), [&](const auto& a, const auto& b) {
+    return sortDescByKeys(cgroups, [&](const CgroupContext& cgroup_ctx) {
       return std::make_tuple(
-                 a.get().kill_preference().value_or(KillPreference::NORMAL),
-                 get_key(a.get())) >
-          std::make_tuple(
-                 b.get().kill_preference().value_or(KillPreference::NORMAL),
-                 get_key(b.get()));
+          cgroup_ctx.kill_preference().value_or(KillPreference::NORMAL),
+          get_key(cgroup_ctx));
     });
+  }
+
+  /*
+   * Sorts cgroups by get_key, highest first. Every key is read exactly once,
+   * before sorting: keys come lazily from the cgroup fs and change when a
+   * cgroup goes away in the middle of a tick, and std::sort must never see an
+   * ordering that changes under it.
+   */
+  template <class Functor>
+  static std::vector<ConstCgroupContextRef> sortDescByKeys(
+      const std::vector<ConstCgroupContextRef>& cgroups,
+      Functor&& get_key) {
+    using Key = std::decay_t<decltype(get_key(cgroups.front().get()))>;
+    std::vector<std::pair<Key, ConstCgroupContextRef>> keyed;
+    keyed.reserve(cgroups.size());
+    for (const auto& cgroup_ctx : cgroups) {
+      keyed.emplace_back(get_key(cgroup_ctx.get()), cgroup_ctx);
+    }
+    std::sort(keyed.begin(), keyed.end(), [](const auto& a, const auto& b) {
+      return a.first > b.first;
+    });
+    std::vector<ConstCgroupContextRef> sorted;
+    sorted.reserve(keyed.size());
+    for (const auto& kc : keyed) {
+      sorted.push_back(kc.second);
+    }
     return sorted;
   }
 
